@@ -24,6 +24,7 @@ try:
     meta['repo_head'] = sh('git -C /repo rev-parse --short HEAD').stdout.strip()
     patch = os.path.join(a.src, 'patch.diff'); demo = os.path.join(a.src, 'demo.py')
     r = sh('git -C %s apply %s' % (wt, patch)); meta['patch_applies'] = r.returncode == 0
+    shutil.copy(demo, os.path.join(wt, 'demo_seeded.py')); demo = os.path.join(wt, 'demo_seeded.py')   # demos import mystic from their own directory / the cwd
     if r.returncode: print('PATCH DOES NOT APPLY', r.stderr); raise SystemExit(2)
     env = dict(os.environ, PYTHONDONTWRITEBYTECODE='1')
     r1 = sh('/venv/bin/python %s' % demo, cwd=wt, env=env, timeout=1200)
@@ -54,7 +55,7 @@ try:
     out = os.path.join('/verif/seeded', a.name)
     os.makedirs(out, exist_ok=True)
     for f in ('patch.diff', 'demo.py', 'notes.md'):
-        if os.path.exists(os.path.join(a.src, f)): shutil.copy(os.path.join(a.src, f), os.path.join(out, f))
+        if os.path.exists(os.path.join(a.src, f)) and os.path.realpath(a.src) != os.path.realpath(out): shutil.copy(os.path.join(a.src, f), os.path.join(out, f))
     notes = open(os.path.join(a.src, 'notes.md')).read() if os.path.exists(os.path.join(a.src, 'notes.md')) else ''
     meta['needs_to_manifest'] = notes[:1500]
     meta['what_was_run'] = 'tools/seeded.py: patch applied to a scratch worktree of /repo@%s; demo run with and without it; %s; checks run with MYSTIC_VERIF_REPO=<worktree>' % (
